@@ -2099,6 +2099,8 @@ def get_fit_params(
     if params_0 is not None and not (
         bounds[0] <= params_0[0] and params_0[0] <= bounds[1]
     ):
+        # Work on a copy: the hint belongs to the caller.
+        params_0 = np.array(params_0, dtype=float)
         params_0[0] = (bounds[0] + bounds[1]) / 2
 
     # print("Bounds", bounds)
